@@ -233,6 +233,17 @@ def check_property(prop, tier, seed, timeout_s):
     import re as _re
     for b in spec.get("bounded", []):
         status, path, text = hunt(b["oracle"], prop, seed, tier, "bounded:" + b["oracle"].partition("::")[2], b["what"])
+        if tier == "thorough":
+            # deeper exploration: two more seeds of the generated part of each stand-in
+            for extra in (seed + 1, seed + 2):
+                if status != "none":
+                    break
+                st2, path2, text2 = hunt(b["oracle"], prop, extra, tier, "bounded:" + b["oracle"].partition("::")[2], b["what"])
+                m1, m2 = _re.search(r"in (\d+) cases", text or ""), _re.search(r"in (\d+) cases", text2 or "")
+                if st2 == "none" and m1 and m2:
+                    text = (text or "").replace(m1.group(0), f"in {int(m1.group(1)) + int(m2.group(1))} cases")
+                else:
+                    status, path, text = st2, path2, text2
         for line in (text or "").split("\n"):
             if line.startswith("KNOWN-FINDING-HIT "):
                 h = json.loads(line[len("KNOWN-FINDING-HIT "):])
